@@ -2,6 +2,8 @@
 from lib import hexs
 
 MODULE = "DtailModel.Props.C17"
+# translated packages (tie G) this property's theorems rest on
+GEN_UNITS = ("KnownHosts",)
 # scripts with real waits: a disagreement counts only if it reproduces when re-run alone (flake policy, DESIGN 2.3)
 TIMED_OPS = ("c17.wrap", "c17.client")
 GROUPS = ["C17"]
@@ -11,8 +13,8 @@ BUDGET = {"quick": 500, "thorough": 8000}
 LEVEL_TEXT = ("Lean theorems: C17_proceed_iff (the callback proceeds iff known, trust-all, or the first decisive answer is yes/all), "
               "C17_refused, C17_rewrite (new entries added, every old line with an unrelated address kept unchanged and in order, nothing "
               "else written) for every host list and file; tied to the code by the real trustHosts on generated known_hosts files (lines and "
-              "normalised addresses taken from the knownhosts library) and the real Wrap()+PromptAddHosts with scripted stdin; scripts in which nobody answers and the client's context ends (no answer is no approval), and several attempts through the same callback after a refusal")
-TRUSTED = ["Lean 4 kernel", "axioms: propext, Quot.sound, Classical.choice (at most)", "overlay harness + dtmodel driver + this diff",
+              "normalised addresses taken from the knownhosts library) and the real Wrap()+PromptAddHosts with scripted stdin; scripts in which nobody answers and the client's context ends (no answer is no approval), and several attempts through the same callback after a refusal; tie G: KnownHostsCallback.trustHosts is translated on every run with its file operations recorded (C17_generated_trustHosts_writes_model_lines: when no operation fails it does not panic, writes exactly the model's trustHostsLines into the temporary file and ends with the rename over the old file; Normalize and the scanner's lines are parameters); c17.trust runs the translated function beside the model")
+TRUSTED = ["Lean 4 kernel", "Go->Lean translator (unit KnownHosts: file operations as recorded effects, the scanner as the list of its lines, panic(…) as a panic of the translation, a value receiver that carries the history) with its prelude GoRT", "axioms: propext, Quot.sound, Classical.choice (at most)", "overlay harness + dtmodel driver + this diff",
            "modelled not verified: golang.org/x/crypto/ssh/knownhosts (matching of known/hashed/revoked entries, Line, Normalize), "
            "that a non-nil host-key callback error aborts the dial (library contract), bufio.Scanner, os.Rename"]
 ASSUMPTIONS = ["a refused host receives no commands because ssh.Dial fails when the callback returns an error"]
